@@ -57,9 +57,26 @@ func (r *Request) GetResponse(done <-chan struct{}, respDuration time.Duration) 
 // HandlePFCPMsg handles different types of PFCP messages.
 func (pConn *PFCPConn) HandlePFCPMsg(buf []byte) {
 	var (
-		reply message.Message
-		err   error
+		reply   message.Message
+		err     error
+		release bool
 	)
+
+	pConn.handlerMu.Lock()
+	defer func() {
+		pConn.handlerMu.Unlock()
+
+		if release {
+			pConn.Shutdown()
+		}
+	}()
+
+	// Do not process messages once the connection is shutting down
+	select {
+	case <-pConn.shutdown:
+		return
+	default:
+	}
 
 	msg, err := message.Parse(buf)
 	if err != nil {
@@ -86,7 +103,7 @@ func (pConn *PFCPConn) HandlePFCPMsg(buf []byte) {
 
 	case message.MsgTypeAssociationReleaseRequest:
 		reply, err = pConn.handleAssociationReleaseRequest(msg)
-		defer pConn.Shutdown()
+		release = true
 
 	// Session related messages
 	case message.MsgTypeSessionEstablishmentRequest:
